@@ -98,10 +98,13 @@ func (s *SyncNode) Ready() <-chan Ready { return make(chan Ready) }
 
 // VerifPromotable: tickElection only campaigns when the node is in its own
 // configuration; the harness's "election timeout" event must respect that.
+// A snapshot message from the leader resets the election timer, and the application
+// loop takes the Ready that carries the snapshot before election_tick further ticks can
+// pass: an election timeout cannot fire while a received snapshot is still unapplied.
 func (s *SyncNode) VerifPromotable() bool {
 	s.mu.Lock()
 	defer s.mu.Unlock()
-	return s.rn.raft.promotable()
+	return s.rn.raft.promotable() && s.rn.raft.raftLog.unstable.snapshot == nil
 }
 
 func (s *SyncNode) VerifHasReady() bool {
